@@ -114,12 +114,19 @@ def correspond(rng, tier, boost=1):
     res = run_cases(exe, mexe, gen_cases(rng, n, True, 9000 if tier == "quick" else 100000))
     dist = {}
     mism, errs = [], []
+    unevaluated = 0
     for r in res:
         dist[r[2]] = dist.get(r[2], 0) + 1
+        if r[5].startswith("CRASH") and not r[4].startswith("CRASH"):
+            # the extracted model could not be evaluated on this case (OCaml stack / time limit on texts of
+            # tens of thousands of units): that says nothing about the implementation -- counted, not judged
+            unevaluated += 1
+            continue
         if r[5].startswith("RERR"):
             errs.append(r)
         elif r[4] != r[5]:
             mism.append(r)
+    dist["model_unevaluated"] = unevaluated
     out = {"n": len(res), "mismatches": [], "errors": [], "distribution": dist, "samples": [r[1][:200] for r in res[len(res) // 2: len(res) // 2 + 3]],
            "n_mismatch": len(mism), "n_error": len(errs)}
     for lst, key in ((mism, "mismatches"), (errs, "errors")):
